@@ -1121,7 +1121,7 @@ class EntryGraph:
         return None
 
     def _kill_frame(self, env, cid):
-        for k in [k for k in env if k[0] == cid]:
+        for k in [k for k in env if k[0] == cid or (k[0] == 'A' and isinstance(k[1], tuple) and k[1][0] == cid)]:
             del env[k]
 
     _cur = None
